@@ -331,12 +331,13 @@ type recEntry struct {
 }
 
 type runProbe struct {
-	mu      sync.Mutex
-	entries map[recKey]*recEntry
-	calls   map[int]*int64 // user-function invocations per node
-	incrs   map[int]*int64 // metrics increments performed per counter index
-	active  int64          // user functions currently executing (concurrency gauge)
-	maxAct  int64
+	mu         sync.Mutex
+	entries    map[recKey]*recEntry
+	calls      map[int]*int64   // user-function invocations per node
+	incrs      map[int]*int64   // metrics increments performed per counter index
+	shardCalls map[[2]int]int64 // (node, shard) -> invocations, for functions that know their shard
+	active     int64            // user functions currently executing (concurrency gauge)
+	maxAct     int64
 }
 
 var probes sync.Map // run id -> *runProbe
@@ -345,7 +346,7 @@ func probeFor(run string) *runProbe {
 	if p, ok := probes.Load(run); ok {
 		return p.(*runProbe)
 	}
-	p := &runProbe{entries: map[recKey]*recEntry{}, calls: map[int]*int64{}, incrs: map[int]*int64{}}
+	p := &runProbe{entries: map[recKey]*recEntry{}, calls: map[int]*int64{}, incrs: map[int]*int64{}, shardCalls: map[[2]int]int64{}}
 	act, _ := probes.LoadOrStore(run, p)
 	return act.(*runProbe)
 }
@@ -513,6 +514,10 @@ func BuildSlice(sp Spec, args []bigslice.Slice) bigslice.Slice {
 					}
 					return []reflect.Value{reflect.ValueOf(k), ev}
 				}
+				pr := probeFor(spec.Run)
+				pr.mu.Lock()
+				pr.shardCalls[[2]int{ni, shard}]++
+				pr.mu.Unlock()
 				if err := userCall(nil, spec, ni); err != nil {
 					return ret(0, err)
 				}
